@@ -133,35 +133,91 @@ theorem unescape_escapeAux (first : Bool) (v : Runes) :
 
 /-! ### splitting at unescaped separators -/
 
-/-- a string through which `splitComponents` walks without splitting and without leaving an escape open -/
-def Safe (s : Runes) : Prop :=
-  ∀ tail cur, Rfc4514.splitComponents (s ++ tail) cur = Rfc4514.splitComponents tail (s.reverse ++ cur)
+/-- both splitters of the reader as instances of one: split at the unescaped characters satisfying `p` -/
+def splitP (p : Nat → Bool) : Runes → Runes → List Runes
+  | [], cur => [cur.reverse]
+  | 92 :: c :: rest, cur => splitP p rest (c :: 92 :: cur)
+  | c :: rest, cur => if p c then cur.reverse :: splitP p rest [] else splitP p rest (c :: cur)
 
-theorem Safe.nil : Safe [] := fun _ _ => rfl
+def commaPlus (c : Nat) : Bool := c = 44 || c = 43
+def isSep (sep : Nat) (c : Nat) : Bool := c = sep
 
-theorem Safe.append {s t : Runes} (hs : Safe s) (ht : Safe t) : Safe (s ++ t) := by
+theorem splitComponents_eq (s cur : Runes) :
+    Rfc4514.splitComponents s cur = splitP commaPlus s cur := by
+  fun_induction splitP commaPlus s cur with
+  | case1 cur => simp [Rfc4514.splitComponents]
+  | case2 c rest cur ih => rw [Rfc4514.splitComponents.eq_2, ih]
+  | case3 c rest cur hc hp ih =>
+    rw [Rfc4514.splitComponents.eq_3 _ _ _ hc, ih, if_pos]
+    simpa [commaPlus] using hp
+  | case4 c rest cur hc hp ih =>
+    rw [Rfc4514.splitComponents.eq_3 _ _ _ hc, ih, if_neg]
+    simpa [commaPlus] using hp
+
+theorem splitAt_eq (sep : Nat) (s cur : Runes) :
+    Rfc4514.splitAt sep s cur = splitP (isSep sep) s cur := by
+  fun_induction splitP (isSep sep) s cur with
+  | case1 cur => simp [Rfc4514.splitAt]
+  | case2 c rest cur ih => rw [Rfc4514.splitAt.eq_2, ih]
+  | case3 c rest cur hc hp ih =>
+    rw [Rfc4514.splitAt.eq_3 _ _ _ _ hc, ih, if_pos]
+    simpa [isSep] using hp
+  | case4 c rest cur hc hp ih =>
+    rw [Rfc4514.splitAt.eq_3 _ _ _ _ hc, ih, if_neg]
+    simpa [isSep] using hp
+
+/-- a string through which `splitP p` walks without splitting and without leaving an escape open -/
+def Safe (p : Nat → Bool) (s : Runes) : Prop :=
+  ∀ tail cur, splitP p (s ++ tail) cur = splitP p tail (s.reverse ++ cur)
+
+theorem Safe.nil {p} : Safe p [] := fun _ _ => rfl
+
+theorem Safe.append {p} {s t : Runes} (hs : Safe p s) (ht : Safe p t) : Safe p (s ++ t) := by
   intro tail cur
   rw [List.append_assoc, hs, ht, List.reverse_append, List.append_assoc]
 
-theorem Safe.single {c : Nat} (h1 : c ≠ 92) (h2 : c ≠ 44) (h3 : c ≠ 43) : Safe [c] := by
+theorem splitP_cons_of_ne {p} {c : Nat} (h1 : c ≠ 92) (rest cur : Runes) :
+    splitP p (c :: rest) cur =
+      if p c then cur.reverse :: splitP p rest [] else splitP p rest (c :: cur) :=
+  splitP.eq_3 _ _ _ _ (fun _ _ h => absurd h h1)
+
+theorem Safe.single {p} {c : Nat} (h1 : c ≠ 92) (h2 : p c = false) : Safe p [c] := by
   intro tail cur
   simp only [List.cons_append, List.nil_append, List.reverse_cons, List.reverse_nil]
-  rw [Rfc4514.splitComponents.eq_3 _ _ _ (fun _ _ h => absurd h h1), if_neg (by omega)]
+  rw [splitP_cons_of_ne h1, h2]
+  rfl
 
-theorem Safe.pair (c : Nat) : Safe [92, c] := by
+theorem Safe.pair {p} (c : Nat) : Safe p [92, c] := by
   intro tail cur
   simp only [List.cons_append, List.nil_append, List.reverse_cons, List.reverse_nil]
-  rw [Rfc4514.splitComponents.eq_2]
+  rw [splitP.eq_2]
 
-theorem Safe.of_forall {s : Runes} (h : ∀ c ∈ s, c ≠ 92 ∧ c ≠ 44 ∧ c ≠ 43) : Safe s := by
+theorem Safe.of_forall {p} {s : Runes} (h : ∀ c ∈ s, c ≠ 92 ∧ p c = false) : Safe p s := by
   induction s with
   | nil => exact Safe.nil
   | cons c rest ih =>
     have hc := h c (by simp)
-    exact Safe.append (s := [c]) (Safe.single hc.1 hc.2.1 hc.2.2)
+    exact Safe.append (s := [c]) (Safe.single hc.1 hc.2)
       (ih fun d hd => h d (List.mem_cons_of_mem _ hd))
 
-theorem Safe.escapeAux (f : Bool) (v : Runes) : Safe (escapeAux f v) := by
+/-- separator predicates that only fire on ',' or '+' -/
+def SepOnly (p : Nat → Bool) : Prop := ∀ c, p c = true → c = 44 ∨ c = 43
+
+theorem SepOnly.false {p} (hp : SepOnly p) {c : Nat} (h1 : c ≠ 44) (h2 : c ≠ 43) : p c = false := by
+  cases h : p c with
+  | false => rfl
+  | true => rcases hp c h with h | h <;> contradiction
+
+theorem sepOnly_commaPlus : SepOnly commaPlus := by
+  intro c h; simpa [commaPlus] using h
+
+theorem sepOnly_isSep44 : SepOnly (isSep 44) := by
+  intro c h; left; simpa [isSep] using h
+
+theorem sepOnly_isSep43 : SepOnly (isSep 43) := by
+  intro c h; right; simpa [isSep] using h
+
+theorem Safe.escapeAux {p} (hp : SepOnly p) (f : Bool) (v : Runes) : Safe p (escapeAux f v) := by
   induction v generalizing f with
   | nil => exact Safe.nil
   | cons c rest ih =>
@@ -170,34 +226,102 @@ theorem Safe.escapeAux (f : Bool) (v : Runes) : Safe (escapeAux f v) := by
     · exact Safe.append (Safe.pair c) (ih false)
     · rename_i h
       simp only [Bool.or_eq_true, not_or, alwaysEscaped, decide_eq_true_eq] at h
-      exact Safe.append (Safe.single (by omega) (by omega) (by omega)) (ih false)
+      exact Safe.append (Safe.single (by omega) (hp.false (by omega) (by omega))) (ih false)
 
 theorem nameChar_ne {c : Nat} (h : nameChar c = true) : c ≠ 92 ∧ c ≠ 44 ∧ c ≠ 43 ∧ c ≠ 61 := by
   simp only [nameChar, Bool.or_eq_true, Bool.and_eq_true, decide_eq_true_eq] at h
   omega
 
-theorem Safe.renderAttr (a : Oid × Runes) (ha : a.1 ≠ []) : Safe (renderAttr a) := by
+theorem Safe.renderAttr {p} (hp : SepOnly p) (a : Oid × Runes) (ha : a.1 ≠ []) : Safe p (renderAttr a) := by
   unfold DN.renderAttr
-  refine Safe.append (Safe.append (Safe.of_forall fun c hc => ?_) (Safe.single ?_ ?_ ?_)) (Safe.escapeAux _ _)
+  refine Safe.append (Safe.append (Safe.of_forall fun c hc => ?_) (Safe.single ?_ ?_)) (Safe.escapeAux hp _ _)
   · have := nameChar_ne ((attrTypeName_safe a.1 ha).2 c hc)
-    exact ⟨this.1, this.2.1, this.2.2.1⟩
-  all_goals decide
+    exact ⟨this.1, hp.false this.2.1 this.2.2.1⟩
+  · decide
+  · exact hp.false (by decide) (by decide)
 
-theorem splitComponents_joinComma (l : List Runes) (hl : l ≠ []) (h : ∀ x ∈ l, Safe x) :
-    Rfc4514.splitComponents (joinComma l) [] = l := by
-  fun_induction joinComma l with
-  | case1 => exact absurd rfl hl
-  | case2 x =>
+/-- `joinComma` and `joinPlus` as instances of one join -/
+def joinSep (sep : Nat) : List Runes → Runes
+  | [] => []
+  | [x] => x
+  | x :: rest => x ++ [sep] ++ joinSep sep rest
+
+theorem joinComma_eq (l : List Runes) : joinComma l = joinSep 44 l := by
+  fun_induction joinSep 44 l with
+  | case1 => rfl
+  | case2 x => rfl
+  | case3 x rest hrest ih => rw [joinComma.eq_3 _ _ hrest, ih]
+
+theorem joinPlus_eq (l : List Runes) : joinPlus l = joinSep 43 l := by
+  fun_induction joinSep 43 l with
+  | case1 => rfl
+  | case2 x => rfl
+  | case3 x rest hrest ih => rw [joinPlus.eq_3 _ _ hrest, ih]
+
+theorem joinSep_cons_cons (sep : Nat) (x y : Runes) (l : List Runes) :
+    joinSep sep (x :: y :: l) = x ++ sep :: joinSep sep (y :: l) := by
+  rw [joinSep.eq_3 _ _ _ (by simp)]; simp
+
+/-- a join of safe pieces with a non-separator is safe -/
+theorem Safe.joinSep {p} {sep : Nat} (h1 : sep ≠ 92) (h2 : p sep = false) (l : List Runes)
+    (h : ∀ x ∈ l, Safe p x) : Safe p (joinSep sep l) := by
+  fun_induction DN.joinSep sep l with
+  | case1 => exact Safe.nil
+  | case2 x => exact h x (by simp)
+  | case3 x rest hrest ih =>
+    exact Safe.append (Safe.append (h x (by simp)) (Safe.single h1 h2))
+      (ih fun y hy => h y (List.mem_cons_of_mem _ hy))
+
+/-- splitting a separator-join of safe pieces that runs to the end of the input -/
+theorem splitP_joinSep_end {p} {sep : Nat} (h1 : sep ≠ 92) (h2 : p sep = true) (x : Runes) (l : List Runes)
+    (h : ∀ y ∈ x :: l, Safe p y) : splitP p (joinSep sep (x :: l)) [] = x :: l := by
+  induction l generalizing x with
+  | nil =>
     have := h x (by simp) [] []
     simp only [List.append_nil] at this
-    rw [this]; simp [Rfc4514.splitComponents]
-  | case3 x rest hrest ih =>
-    have hx := h x (by simp)
-    rw [List.append_assoc, hx, List.append_nil]
-    simp only [List.cons_append, List.nil_append]
-    rw [Rfc4514.splitComponents.eq_3 _ _ _ (fun _ _ h => absurd h (by decide))]
-    simp only [true_or, if_true, List.reverse_reverse]
-    rw [ih hrest fun y hy => h y (List.mem_cons_of_mem _ hy)]
+    simp [joinSep, this, splitP]
+  | cons y l ih =>
+    rw [joinSep_cons_cons, h x (by simp), splitP_cons_of_ne h1, h2, List.append_nil]
+    simp only [if_true, List.reverse_reverse]
+    rw [ih y fun z hz => h z (List.mem_cons_of_mem _ hz)]
+
+/-- … and one that is followed by a further separator -/
+theorem splitP_joinSep_tail {p} {sep sep' : Nat} (h1 : sep ≠ 92) (h2 : p sep = true)
+    (h1' : sep' ≠ 92) (h2' : p sep' = true) (x : Runes) (l : List Runes) (tail : Runes)
+    (h : ∀ y ∈ x :: l, Safe p y) :
+    splitP p (joinSep sep (x :: l) ++ sep' :: tail) [] = x :: l ++ splitP p tail [] := by
+  induction l generalizing x with
+  | nil =>
+    simp only [joinSep]
+    rw [h x (by simp), splitP_cons_of_ne h1', h2', List.append_nil]
+    simp
+  | cons y l ih =>
+    rw [joinSep_cons_cons, List.append_assoc, h x (by simp), List.cons_append, splitP_cons_of_ne h1, h2,
+      List.append_nil]
+    simp only [if_true, List.reverse_reverse]
+    rw [ih y fun z hz => h z (List.mem_cons_of_mem _ hz)]
+    rfl
+
+/-- splitting a join of joins at both separators yields the flat list of pieces -/
+theorem splitP_join_join {p} {s₁ s₂ : Nat} (h1 : s₁ ≠ 92) (h2 : p s₁ = true) (h1' : s₂ ≠ 92) (h2' : p s₂ = true)
+    (L : List (List Runes)) (hL : L ≠ []) (hne : ∀ r ∈ L, r ≠ []) (h : ∀ r ∈ L, ∀ y ∈ r, Safe p y) :
+    splitP p (joinSep s₁ (L.map (joinSep s₂))) [] = L.flatten := by
+  induction L with
+  | nil => exact absurd rfl hL
+  | cons r rest ih =>
+    obtain ⟨x, l, rfl⟩ : ∃ x l, r = x :: l := by
+      cases r with
+      | nil => exact absurd rfl (hne [] (by simp))
+      | cons x l => exact ⟨x, l, rfl⟩
+    cases rest with
+    | nil =>
+      simp only [List.map_cons, List.map_nil, joinSep, List.flatten_cons, List.flatten_nil, List.append_nil]
+      exact splitP_joinSep_end h1' h2' x l (h _ (by simp))
+    | cons r' rest' =>
+      rw [List.map_cons, List.map_cons, joinSep_cons_cons,
+        splitP_joinSep_tail h1' h2' h1 h2 x l _ (h _ (by simp)), ← List.map_cons,
+        ih (by simp) (fun r hr => hne r (List.mem_cons_of_mem _ hr)) (fun r hr => h r (List.mem_cons_of_mem _ hr))]
+      rfl
 
 /-! ### splitting a component at '=' -/
 
@@ -230,42 +354,140 @@ theorem mapM_parseComponent (l : List (Oid × Runes)) (h : ∀ a ∈ l, a.1 ≠ 
       ih fun b hb => h b (List.mem_cons_of_mem _ hb)]
     rfl
 
-theorem joinComma_ne_nil (x : Runes) (l : List Runes) (hx : x ≠ []) : joinComma (x :: l) ≠ [] := by
+theorem mapM_eq_some_map {α β} (f : α → Option β) (g : α → β) (l : List α) (h : ∀ x ∈ l, f x = some (g x)) :
+    l.mapM f = some (l.map g) := by
+  induction l with
+  | nil => rfl
+  | cons a rest ih =>
+    rw [List.mapM_cons, h a (by simp), ih fun b hb => h b (List.mem_cons_of_mem _ hb)]
+    rfl
+
+theorem joinSep_ne_nil (sep : Nat) (x : Runes) (l : List Runes) (hx : x ≠ []) : joinSep sep (x :: l) ≠ [] := by
   cases l with
-  | nil => simpa [joinComma] using hx
-  | cons y r => simp [joinComma]
+  | nil => simpa [joinSep] using hx
+  | cons y r => simp [joinSep]
 
 theorem renderAttr_ne_nil (a : Oid × Runes) : renderAttr a ≠ [] := by
   simp [DN.renderAttr]
 
-theorem parseDN_render (l : List (Oid × Runes)) (h : ∀ a ∈ l, a.1 ≠ []) :
-    Rfc4514.parseDN (joinComma (l.map renderAttr)) = some (l.map fun a => (attrTypeName a.1, a.2)) := by
-  cases l with
-  | nil => rfl
+theorem renderRDN_eq (r : List (Oid × Runes)) : renderRDN r = joinSep 43 (r.map renderAttr) := by
+  unfold renderRDN; exact joinPlus_eq _
+
+theorem renderRDN_ne_nil (r : List (Oid × Runes)) (hr : r ≠ []) : renderRDN r ≠ [] := by
+  cases r with
+  | nil => exact absurd rfl hr
   | cons a rest =>
-    unfold Rfc4514.parseDN
-    rw [if_neg]
-    · rw [splitComponents_joinComma _ (by simp)]
-      · exact mapM_parseComponent _ h
-      · intro x hx
-        obtain ⟨b, hb, rfl⟩ := List.mem_map.mp hx
-        exact Safe.renderAttr b (h b hb)
-    · rw [List.map_cons, List.isEmpty_iff]
-      exact joinComma_ne_nil _ _ (renderAttr_ne_nil a)
+    rw [renderRDN_eq, List.map_cons]
+    exact joinSep_ne_nil _ _ _ (renderAttr_ne_nil a)
+
+theorem fromRDNs_eq (L : List (List (Oid × Runes))) :
+    joinComma (L.map renderRDN) = joinSep 44 ((L.map (List.map renderAttr)).map (joinSep 43)) := by
+  rw [joinComma_eq, List.map_map]
+  congr 1
+  apply List.map_congr_left
+  intro r _
+  exact renderRDN_eq r
+
+theorem fromRDNs_ne_nil (L : List (List (Oid × Runes))) (hL : L ≠ []) (hne : ∀ r ∈ L, r ≠ []) :
+    joinComma (L.map renderRDN) ≠ [] := by
+  cases L with
+  | nil => exact absurd rfl hL
+  | cons r rest =>
+    rw [joinComma_eq, List.map_cons]
+    exact joinSep_ne_nil _ _ _ (renderRDN_ne_nil r (hne r (by simp)))
+
+/-- the flat reading of a rendered sequence of non-empty RDNs -/
+theorem parseDN_render (L : List (List (Oid × Runes))) (hne : ∀ r ∈ L, r ≠ [])
+    (h : ∀ r ∈ L, ∀ a ∈ r, a.1 ≠ []) :
+    Rfc4514.parseDN (joinComma (L.map renderRDN)) = some (L.flatten.map fun a => (attrTypeName a.1, a.2)) := by
+  by_cases hL : L = []
+  · subst hL; rfl
+  · unfold Rfc4514.parseDN
+    rw [if_neg (by rw [List.isEmpty_iff]; exact fromRDNs_ne_nil L hL hne)]
+    rw [splitComponents_eq, fromRDNs_eq,
+      splitP_join_join (p := commaPlus) (by decide) (by decide) (by decide) (by decide) _ (by simpa using hL)]
+    · rw [← List.map_flatten]
+      apply mapM_parseComponent
+      intro a ha
+      obtain ⟨r, hr, har⟩ := List.mem_flatten.mp ha
+      exact h r hr a har
+    · intro r hr
+      obtain ⟨r', hr', rfl⟩ := List.mem_map.mp hr
+      simpa using hne r' hr'
+    · intro r hr y hy
+      obtain ⟨r', hr', rfl⟩ := List.mem_map.mp hr
+      obtain ⟨a, ha, rfl⟩ := List.mem_map.mp hy
+      exact Safe.renderAttr sepOnly_commaPlus a (h r' hr' a ha)
+
+theorem flatten_filter_nonempty {α} (l : List (List α)) : (l.filter fun r => !r.isEmpty).flatten = l.flatten := by
+  induction l with
+  | nil => rfl
+  | cons r rest ih =>
+    cases r with
+    | nil => simpa using ih
+    | cons a r => simp [ih]
 
 theorem dn_readback (rdns : List (List (Oid × Runes))) (ho : ∀ r ∈ rdns, ∀ a ∈ r, a.1 ≠ []) :
     Rfc4514.parseDN (fromRDNSequence rdns) = some ((flattenRev rdns).map fun a => (attrTypeName a.1, a.2)) := by
-  unfold fromRDNSequence
+  unfold fromRDNSequence flattenRev
+  rw [← flatten_filter_nonempty]
   apply parseDN_render
-  intro a ha
-  unfold flattenRev at ha
-  obtain ⟨r, hr, har⟩ := List.mem_flatten.mp ha
-  exact ho r (List.mem_reverse.mp hr) a har
+  · intro r hr
+    have := (List.mem_filter.mp hr).2
+    simpa using this
+  · intro r hr a ha
+    exact ho r (List.mem_reverse.mp (List.mem_filter.mp hr).1) a ha
 
+/-- the structured reading of a rendered sequence of non-empty RDNs -/
+theorem parseRDNs_render (L : List (List (Oid × Runes))) (hne : ∀ r ∈ L, r ≠ [])
+    (h : ∀ r ∈ L, ∀ a ∈ r, a.1 ≠ []) :
+    Rfc4514.parseRDNs (joinComma (L.map renderRDN)) =
+      some (L.map fun r => r.map fun a => (attrTypeName a.1, a.2)) := by
+  cases L with
+  | nil => rfl
+  | cons r₀ rest =>
+    unfold Rfc4514.parseRDNs
+    rw [if_neg (by rw [List.isEmpty_iff]; exact fromRDNs_ne_nil _ (by simp) hne)]
+    rw [splitAt_eq, joinComma_eq, List.map_cons, splitP_joinSep_end (by decide) (by decide), ← List.map_cons]
+    · rw [List.mapM_map]
+      apply mapM_eq_some_map
+      intro r hr
+      obtain ⟨a, l, rfl⟩ : ∃ a l, r = a :: l := by
+        cases r with
+        | nil => exact absurd rfl (hne [] hr)
+        | cons a l => exact ⟨a, l, rfl⟩
+      show (Rfc4514.splitAt 43 (renderRDN (a :: l)) []).mapM Rfc4514.parseComponent = _
+      rw [splitAt_eq, renderRDN_eq, List.map_cons, splitP_joinSep_end (by decide) (by decide), ← List.map_cons]
+      · exact mapM_parseComponent _ (h _ hr)
+      · intro y hy
+        rw [← List.map_cons] at hy
+        obtain ⟨b, hb, rfl⟩ := List.mem_map.mp hy
+        exact Safe.renderAttr sepOnly_isSep43 b (h _ hr b hb)
+    · intro y hy
+      rw [← List.map_cons] at hy
+      obtain ⟨r, hr, rfl⟩ := List.mem_map.mp hy
+      rw [renderRDN_eq]
+      apply Safe.joinSep (by decide) (by decide)
+      intro z hz
+      obtain ⟨b, hb, rfl⟩ := List.mem_map.mp hz
+      exact Safe.renderAttr sepOnly_isSep44 b (h r hr b hb)
+
+theorem filter_nonempty_eq_self {α} (l : List (List α)) (h : ∀ r ∈ l, r ≠ []) :
+    (l.filter fun r => !r.isEmpty) = l := by
+  rw [List.filter_eq_self]
+  intro r hr
+  simpa using h r hr
+
+theorem dn_structure_readback (rdns : List (List (Oid × Runes))) (ho : ∀ r ∈ rdns, ∀ a ∈ r, a.1 ≠ [])
+    (hne : ∀ r ∈ rdns, r ≠ []) :
+    Rfc4514.parseRDNs (fromRDNSequence rdns) = some (rdns.reverse.map fun r => r.map fun a => (attrTypeName a.1, a.2)) := by
+  unfold fromRDNSequence
+  rw [filter_nonempty_eq_self _ fun r hr => hne r (List.mem_reverse.mp hr)]
+  exact parseRDNs_render _ (fun r hr => hne r (List.mem_reverse.mp hr))
+    (fun r hr => ho r (List.mem_reverse.mp hr))
 
 /-! ### the table is injective on names, apart from `ldapUrl` -/
 
-set_option maxRecDepth 100000 in
 theorem table_inj_bool :
     (Gen.x500Names.all fun r₁ => Gen.x500Names.all fun r₂ =>
       !(r₁.2 == r₂.2) || (r₁.1 == r₂.1) || (r₁.2 == "ldapUrl")) = true := by
